@@ -2,11 +2,11 @@ module verifharness
 
 go 1.21.0
 
-require github.com/siglens/siglens v0.0.0
-
 require (
-	github.com/sirupsen/logrus v1.9.3 // indirect
-	golang.org/x/sys v0.28.0 // indirect
+	github.com/siglens/siglens v0.0.0
+	github.com/sirupsen/logrus v1.9.3
 )
+
+require golang.org/x/sys v0.28.0 // indirect
 
 replace github.com/siglens/siglens => /repo
